@@ -166,8 +166,7 @@ type setterTr struct {
 	retK   string
 	fresh  int
 	guards []string // partial operations of the expression being translated; each is a prefix that ends in "=>" or "else"
-	crash  string   // what a failed partial operation evaluates to ("None" for setters, "Crash" for pure functions)
-	pure   *pureTr  // non-nil while a pure function is translated: extra expression forms
+	crash  string   // what a failed partial operation evaluates to ("None" for setters)
 }
 
 func (t *setterTr) crashV() string {
@@ -188,11 +187,6 @@ func (t *setterTr) kindOfExpr(e ast.Expr) string {
 	tv, ok := t.p.info.Types[e]
 	if !ok {
 		return ""
-	}
-	if t.pure != nil {
-		if k := pureKind(tv.Type); k != "" {
-			return k
-		}
 	}
 	if k := kindOf(tv.Type); k != "" {
 		return k
@@ -298,11 +292,6 @@ func (t *setterTr) expr(e ast.Expr) string {
 		}
 		t.unsupported(e, "binary "+x.Op.String())
 	case *ast.CallExpr:
-		if t.pure != nil {
-			if r, ok := t.pure.call(t, x); ok {
-				return r
-			}
-		}
 		if id, ok := x.Fun.(*ast.Ident); ok && id.Name == "len" && len(x.Args) == 1 {
 			if _, isB := t.p.info.Uses[id].(*types.Builtin); isB {
 				return "(Z.of_nat (length " + t.expr(x.Args[0]) + "))"
